@@ -86,3 +86,18 @@ Definition m_bclogout (x : bclogout_case) : res msg :=
   let '(n, ln, now, kw, t, m) := x in
   with_class n (fun c => with_class ln (fun lc => bclogout_verify c lc now kw t m)).
 Definition chk_bclogout (x : bclogout_case * res msg) : bool := res_msg_eqb (m_bclogout (fst x)) (snd x).
+
+(* oidc.AuthorizationResponse / oidc.AccessTokenResponse .verify with a signed ID Token (Model/MsgRules.v
+   oidc_authzresp_verify_idt / oidc_tokenresp_verify_idt):
+   (authorization response? (else token response), class, IdToken class, now, kwargs without the key jar, issuers
+   the key jar knows, hash table (bits, value, digest), the token symbolically, message before)
+   vs (what verify() returned, message afterwards with the verified token under the marker key) *)
+Definition idt_resp_case :=
+  (bool * pystr * pystr * Z * msg * list pystr * list (pystr * pystr * pystr) * token * msg)%type.
+Definition m_authzresp_idt (x : idt_resp_case) : res (bool * msg) :=
+  let '(is_authz, n, icn, now, kw, issuers, tbl, t, m) := x in
+  with_class n (fun c => with_class icn (fun ic =>
+    if is_authz : bool then oidc_authzresp_verify_idt (lhash_of tbl) issuers c ic now kw t m
+    else oidc_tokenresp_verify_idt (lhash_of tbl) issuers c ic now kw t m)).
+Definition chk_authzresp_idt (x : idt_resp_case * res (bool * msg)) : bool :=
+  res_eqb bm_eqb (m_authzresp_idt (fst x)) (snd x).
